@@ -169,6 +169,20 @@ func condReaders(flag bool) func() vrt.Run {
 	}
 }
 
+// pooled: a sync.Pool under the scheduler is a stack that never drops; a second thread's Put may or
+// may not come before the first Get.
+func pooled() vrt.Run {
+	var p sync.Pool
+	p.New = func() interface{} { return 0 }
+	got := ""
+	return vrt.Run{Body: func() {
+		a := vrt.Go(func() { vrt.PoolPut(&p, 7) })
+		vrt.PoolPut(&p, 1)
+		got = fmt.Sprint(vrt.PoolGet(&p), vrt.PoolGet(&p))
+		vrt.Join(a)
+	}, Verdict: verdict(func() string { return got })}
+}
+
 func racy(synced bool) func() vrt.Run {
 	return func() vrt.Run {
 		var x int
@@ -266,6 +280,7 @@ func SelfCheck() (ok bool, report []string) {
 		{"racy", racy(false), []string{"ok+race:2"}, "ok+race"},
 		{"racy-locked", racy(true), []string{"ok:2"}, ""},
 		{"pipeline", func() vrt.Run { return pipeline() }, []string{"ok:[0 1 2]"}, ""},
+		{"pool", func() vrt.Run { return pooled() }, []string{"ok:1 0", "ok:1 7", "ok:7 1"}, ""},
 		{"cond-rlocker", condReaders(true), []string{"ok:"}, ""},
 		{"cond-rlocker-lost-wakeup", condReaders(false), []string{"deadlock:", "ok:"}, "deadlock"},
 	}
